@@ -286,7 +286,14 @@ func (vc *FnVC) oblige(kind, desc, guard, cond string, tags []string, pos string
 	if vc.spec != nil {
 		for suffix, reason := range vc.spec.Unclaimed {
 			if strings.HasPrefix(suffix, "kind!=") {
-				if kind != strings.TrimPrefix(suffix, "kind!=") {
+				// kind!=a&b : everything except obligations of kind a or b
+				claimed := false
+				for _, k := range strings.Split(strings.TrimPrefix(suffix, "kind!="), "&") {
+					if kind == k {
+						claimed = true
+					}
+				}
+				if !claimed {
 					o.Unclaimed = reason
 				}
 			} else if strings.HasSuffix(name, suffix) || strings.Contains(name, suffix) {
